@@ -70,6 +70,8 @@ def menu(v, seed):
             m.append(('replace', [p, new, 1], {}))
             m.append(('replace', [p, new, -2], {}))
     m.append(('__contains__', [['S', 'a', R['R']]], {}))
+    m.append(('__contains__', [['T', 'a', R['R']]], {}))
+    m.append(('__contains__', [['SELF']], {}))
     m.append(('__contains__', [5], {}))
     for name in ('split', 'rsplit'):
         m.append((name, [], {}))
